@@ -122,6 +122,13 @@ def run_rows(pid, spec, prefixes, ctxs=CTXS_DEFAULT, regs_fn=None, prep_kw=None,
             cap = product_cap or max(40, spec['per_row'] // 2)
             combos = list(itertools.product(*cands)) if total <= cap else [tuple(rng.choice(c) for c in cands) for _ in range(cap)]
             regletters = [ch for ch in row.fields if len(row.fields[ch]) == 4 and ch in 'ndmstauhl']
+            if 't' in row.fields and len(row.fields['t']) == 4:
+                # the transferred register being the PC (a store of the PC, a load into it), a dozen times per row
+                for combo in (combos * 12)[:12]:
+                    w = lockstep.gen_word(tabs[kind], row, rng, tries=1, fixed=dict(zip(letters, combo), t=15))
+                    if w is not None:
+                        ls.bump('field_product_words_with_rt_pc')
+                        yield kind, row, w
             for combo in combos:
                 w = lockstep.gen_word(tabs[kind], row, rng, tries=1, fixed=dict(zip(letters, combo)))
                 if w is None:
@@ -162,8 +169,8 @@ def run_rows(pid, spec, prefixes, ctxs=CTXS_DEFAULT, regs_fn=None, prep_kw=None,
             kw['code'] = rng.choice(CODE_ADDRS_THUMB if kind != 'arm' else CODE_ADDRS_ARM)
         if kind == 'arm' and 'code' in kw:
             kw['code'] &= ~3
-        if kind == 'arm' and 'sp_low' not in kw and rng.random() < 0.12:
-            kw['sp_low'] = rng.randrange(1, 4)                    # ARM state: the SP may hold any value
+        if kind == 'arm' and 'sp_low' not in kw and rng.random() < (0.6 if row.name.startswith(('push', 'pop')) else 0.12):
+            kw['sp_low'] = rng.randrange(1, 4)                    # ARM state: the SP may hold any value (PUSH / POP use it as base)
         if kind in ('arm', 't32') and rng.random() < 0.08 and (kind == 't32' or (w >> 27) in (0b11101, 0b11110, 0b11111)):
             # the same NUMBER executed first in the other instruction set on this processor object (decode history)
             scen.prepare(ctx, rng, 't32' if kind == 'arm' else 'arm', w, mode=mode, itpos='out', ns=ns)
